@@ -61,6 +61,19 @@ def Statement_patch_disjoint : Prop :=
 def Statement_patch_rows_roundtrip : Prop :=
   ∀ (r : PRow), readRow (writeRow r) = r ∧ ((writeRow r).2.2 = Spell.unnamed ↔ r.2.2 = Name.default)
 
+/-- rdf:first / rdf:rest triples (ids 10 and 11 of the harness vocabulary): the cells of an RDF collection -/
+def IsCellTriple (t : Triple) : Prop := t.2.1 = Term.iri 10 ∨ t.2.1 = Term.iri 11
+
+/-- The cells of an RDF collection are ordinary triples of their graph's block in this model (TriG `( … )` and
+    JSON-LD `@list` are layouts of a block's triples, below the model's level): a cell of graph `g` is written in a
+    block routed to `g`, and every block that contains it is routed to a graph that holds it.  In particular the
+    parser must add `@list` cells to the graph of the enclosing block, never to the default graph. -/
+def Statement_list_cells_stay_in_block (F : Fmt) : Prop :=
+  ∀ (s : Src), DsWF s → ∀ (t : Triple) (g : Name), IsCellTriple t → (t, g) ∈ s.d →
+    (∃ b ∈ emit F s, dest b.spell = g ∧ t ∈ b.triples) ∧
+    (∀ b ∈ emit F s, t ∈ b.triples → (t, dest b.spell) ∈ s.d) ∧
+    (∀ fresh, ∃ f : Nat → Nat, Function.Injective f ∧ mapQuad f (t, g) ∈ route F (emit F s) fresh)
+
 /-- ConjunctiveGraph sources.  A ConjunctiveGraph's default context is a graph of the store identified by a
     blank node.  N-Quads and TriX write it under that name: the store's quads come back literally
     (`lit`).  TriG, hext and JSON-LD write it as THE default graph: its quads come back in the default
@@ -116,6 +129,15 @@ theorem each_triple_one_block (F : Fmt) : Statement_each_triple_one_block F := b
   constructor
   · rintro ⟨b, hb, ht, hg⟩; exact ⟨b, hb, hg.symm, ht⟩
   · rintro ⟨b, hb, hg, ht⟩; exact ⟨b, hb, ht, hg.symm⟩
+
+theorem list_cells_stay_in_block (F : Fmt) : Statement_list_cells_stay_in_block F := by
+  intro s h t g _ ht
+  refine ⟨(each_triple_one_block F s h t g).mp ht, ?_, ?_⟩
+  · intro b hb htb
+    exact (each_triple_one_block F s h t (dest b.spell)).mpr ⟨b, hb, rfl, htb⟩
+  · intro fresh
+    obtain ⟨f, hf, e⟩ := quad_roundtrip F s h fresh
+    exact ⟨f, hf, (e _).mp (List.mem_map.mpr ⟨(t, g), ht, rfl⟩)⟩
 
 theorem empty_default_ok (F : Fmt) : Statement_empty_default_ok F := by
   intro s s' h h' e
@@ -185,6 +207,18 @@ example : diff exSrc.d [((.iri 1, .iri 7, .lit 2), .iri 4), ((.iri 5, .iri 7, .l
     [(.add, ((.iri 5, .iri 7, .lit 2), .bnode 1)), (.del, ((.iri 1, .iri 7, .lit 2), .default)),
      (.del, ((.bnode 1, .iri 7, .bnode 2), .bnode 1)), (.del, ((.iri 1, .iri 8, .bnode 1), .default)),
      (.del, ((.bnode 2, .iri 7, .lit 3), .iri 4))] := by decide
+
+/-- a two-cell collection (cells 20, 21) inside a blank-node-named graph, its head referenced from that graph -/
+def exList : Src :=
+  { cg := false, dflt := Name.default, cs := [.bnode 1, .default],
+    d := [((.iri 1, .iri 7, .bnode 20), .bnode 1), ((.bnode 20, .iri 10, .lit 2), .bnode 1),
+          ((.bnode 20, .iri 11, .bnode 21), .bnode 1), ((.bnode 21, .iri 10, .iri 3), .bnode 1),
+          ((.bnode 21, .iri 11, .iri 12), .bnode 1), ((.iri 1, .iri 7, .lit 2), .default)] }
+
+example : DsWF exList := ⟨rfl, rfl, by unfold Covers; decide⟩
+example : IsCellTriple (.bnode 20, .iri 11, .bnode 21) := Or.inr rfl
+example : (emit .jsonld exList).map (fun b => (b.spell, b.triples.length)) =
+    [(.unnamed, 1), (.named (.bnode 1), 5)] := by decide
 
 /-- a ConjunctiveGraph with a non-empty default context (blank node 99), an IRI-named and a blank-node-named graph -/
 def exCg : Src :=
